@@ -35,7 +35,16 @@ def _ensure_integer_ids(df: pd.DataFrame) -> pd.DataFrame:
             original_id: new_id for new_id, original_id in enumerate(unique_ids, start=1)
         }
         df["id"] = df["id"].map(id_mapping)
-        df["parent_id"] = df["parent_id"].map(id_mapping).astype(pd.Int64Dtype())
+        # a parent that is neither empty (NaN / "" / -1) nor one of the ids is a link to
+        # an unknown node: mapping it would silently drop the link
+        parents = df["parent_id"]
+        unknown = parents.notna() & ~parents.isin(id_mapping) & ~parents.isin(["", -1])
+        if unknown.any():
+            raise ValueError(
+                f"parent_id values {sorted(set(parents[unknown]), key=str)} are not in the "
+                "'id' column"
+            )
+        df["parent_id"] = parents.map(id_mapping).astype(pd.Int64Dtype())
 
     return df
 
